@@ -1,13 +1,16 @@
 #!/bin/bash
-# Regression over the kept seeded changes: apply each to /repo, run the matching quick check,
-# expect a violation (exit 1), revert. Results in /verif/seeded/RESULTS.txt
+# Regression over the kept seeded changes: apply each to a scratch copy of /repo, run the
+# matching quick check on the copy, expect a violation (exit 1). Results in
+# /verif/seeded/RESULTS.txt. /repo itself is never modified. Usage: tools/seeded.sh [glob-prefix]
 cd /verif || exit 2
-if [ -n "$(git -C /repo status --porcelain --untracked-files=no)" ]; then echo "refusing: /repo has uncommitted changes"; exit 2; fi
-: > seeded/RESULTS.txt
-for d in seeded/C*/; do
+pat=${1:-C}
+. /verif/tools/scratch.sh
+scratch_setup
+[ "$pat" = C ] && : > seeded/RESULTS.txt
+for d in seeded/${pat}*/; do
   name=$(basename "$d"); id=${name%%-*}
-  git -C /repo apply "/verif/$d/patch.diff" || { echo "$name: patch does not apply" | tee -a seeded/RESULTS.txt; continue; }
+  scratch_reset
+  (cd "$SCRATCH_REPO" && git apply "/verif/$d/patch.diff") || { echo "$name: patch does not apply" | tee -a seeded/RESULTS.txt; continue; }
   out=$(./check "$id" quick 2>&1); rc=$?
-  git -C /repo checkout -- .
   echo "$name rc=$rc $(echo "$out" | grep -m1 '^violation class' | cut -c1-160)" | tee -a seeded/RESULTS.txt
 done
